@@ -210,6 +210,7 @@ pub fn base_plan(family: &'static str, role: Role, ch: &mut Choices) -> Plan {
         senders: Vec::new(),
         p_immediate: 0,
         p_hold: 0,
+        p_hold_ctl: 0,
         w_outcome: [1, 0, 0],
         w_payload: [1, 0, 0],
         w_proto: [1, 0, 0],
@@ -438,7 +439,8 @@ fn gen_outbound(kind: OutKind, ch: &mut Choices) -> Plan {
             _ => {
                 plan.cfg.hs_max_send = Some(limit);
                 if ch.chance(1, 2) {
-                    plan.peer.connect.props.push((33, PropVal::U16(limit + ch.choose(3) as u16)));
+                    // the peer's Receive Maximum on either side of the override: the smaller one is the limit
+                    plan.peer.connect.props.push((33, PropVal::U16(1 + ch.choose(u32::from(limit) + 2) as u16)));
                 }
             }
         },
@@ -638,6 +640,27 @@ fn gen_outbound(kind: OutKind, ch: &mut Choices) -> Plan {
         plan.p_cancel = *ch.pick(&[0u32, 3]);
         plan.tags.push("motif:backpressure-free-window".into());
     }
+    if kind == OutKind::C08 && role == Role::S5 && ch.chance(1, 6) {
+        // motif: the sink is stopped while the io is still writable - a protocol handler fails in the
+        // middle of a streamed publish, the Stop notification is being handled (gated), and the
+        // application keeps sending meanwhile
+        plan.senders.clear();
+        plan.senders.push(vec![if ch.chance(1, 2) {
+            AppOp::StreamQ0 { size: 10, chunks: vec![4, 6] }
+        } else {
+            AppOp::StreamQ1 { size: 10, chunks: vec![4, 6], pid: None }
+        }]);
+        for _ in 0..(1 + ch.choose(2)) {
+            plan.senders.push((0..(1 + ch.choose(2))).map(|_| AppOp::PubQ0 { len: 3 }).collect());
+        }
+        plan.peer.script.clear();
+        let sub = rc::Subscribe { pid: 900, props: Vec::new(), filters: vec![("m/#".into(), 0)] };
+        plan.peer.script.push(step(Pkt::Subscribe(sub), Ver::V5, Pre::Connected));
+        plan.w_proto = [0, 0, 1];
+        plan.p_immediate = *ch.pick(&[0u32, 1000]);
+        plan.cfg.ctl_gated = true;
+        plan.tags.push("motif:stopped-sink-writable-io".into());
+    }
     if kind == OutKind::C08 && ch.chance(1, 3) {
         plan.faults.p_wr_stall = 3;
         plan.cfg.wr_hw = 128;
@@ -810,6 +833,14 @@ fn c07_base(family: &'static str, ch: &mut Choices, small: bool) -> Plan {
     plan.w_ctl = *ch.pick(&[[1u32, 0, 0], [2, 1, 1]]);
     plan.p_immediate = *ch.pick(&[0u32, 300, 1000]);
     plan.p_hold = *ch.pick(&[0u32, 0, 300]);
+    if plan.cfg.ctl_gated && ch.chance(1, 3) {
+        // the Stop notification takes (simulated) time: timers fire while it is being handled
+        plan.p_hold_ctl = 700;
+    }
+    if !role.is_server() && ch.chance(1, 3) {
+        // a client with its own keep-alive task running next to the dispatcher
+        plan.cfg.client_keepalive_s = 1 + ch.choose(2) as u16;
+    }
     plan.w_payload = *ch.pick(&[[1u32, 0, 0], [2, 2, 1]]);
     plan.cfg.min_chunk = *ch.pick(&[0u32, 16, 32 * 1024]);
     plan.cfg.max_payload_buf = *ch.pick(&[32 * 1024usize, 64]);
